@@ -27,6 +27,10 @@ def wl_history(ctx, rng, case):
     keys = gen.universe(rng, rng.randint(3, 30))
     hname, hf = gen.pick_hash(rng, keys, kind=rng.choice(["library_default", "default_fnv_1a", "default_md5", "default_sha256", "decorated_int_sha512",
                                                           "decorated_bytes_blake2b", "hand_pairs_collide", "hand_mod3", "hand_same_key_coincide"]))
+    if rng.random() < 0.1:
+        from probables.hashes import default_fnv_1a as _d
+
+        hname, hf = "hand_generous_depth", gen.GenerousHash(hf or _d, rng.randint(1, 4))
     use_push = rng.random() < 0.4
     sc = bl.Scratch(ctx, case)
     case.desc = {"est": est, "rate": rate, "hash": hname, "n_keys": len(keys), "pushes": use_push}
@@ -52,7 +56,7 @@ def wl_history(ctx, rng, case):
                     f.add(key, force=force) if rng.random() < 0.5 else (f.add(key, force) if force else f.add(key))
                 else:
                     case.op("add_alt", key, force)
-                    f.add_alt((hf or _default())(key, mk[1]), force)
+                    f.add_alt((hf or _default())(key, mk[1] + rng.choice([0, 0, 1, 4])), force)
                 calls += 1
                 if eff:
                     if counts[-1] >= est:
